@@ -117,3 +117,19 @@ def cell_summary(c):
     return {"entry": c.entry.name, "n": c.n, "d": c.d, "data": c.data, "labels": c.labels,
             "cmode": c.cmode, "batch": c.batch, "bs": c.bs, "n_cand": len(c.cset),
             "n_labeled": c.n_labeled, "kind": c.kind}
+
+
+def build_in_domain(desc, accept=None, tries=8):
+    """Builds the case of `desc`; if it falls outside the documented domain (or `accept` rejects it) the case seed is
+    re-derived deterministically (seed, attempt) up to `tries` times, so that a required grid cell is not left empty by
+    an unlucky draw.  Returns (case, reason): reason is None if an in-domain case was found."""
+    why = None
+    for attempt in range(tries):
+        d = desc if attempt == 0 else dict(desc, seed=int(desc["seed"]) * 31 + attempt)
+        c = build(d)
+        why = domain(c)
+        if why is None and accept is not None:
+            why = accept(c)
+        if why is None:
+            return c, None
+    return c, why
